@@ -100,6 +100,9 @@ MUTANTS = [
     ("m31_team_cost_reset_on_resume", ["C15", "C08"], M + "base_team.py",
      "        if log_info:\n            self.cost_list = []\n        for w in self.worker_list:",
      "        self.cost_list = []\n        for w in self.worker_list:", None),
+    ("m33_ready_check_before_finish_check", ["C06"], M + "base_project.py",
+     "        self.workflow.check_state(self.time, BaseTaskState.FINISHED)\n        self.product.check_state()  # product should be checked after checking workflow state\n        self.product.check_removing_placed_workplace()\n        self.workflow.check_state(self.time, BaseTaskState.READY)\n",
+     "        self.workflow.check_state(self.time, BaseTaskState.READY)\n        self.workflow.check_state(self.time, BaseTaskState.FINISHED)\n        self.product.check_state()  # product should be checked after checking workflow state\n        self.product.check_removing_placed_workplace()\n", None),
     ("m32_success_reported_with_unfinished_auto", ["C05"], M + "base_project.py",
      "            state_list = list(map(lambda task: task.state, self.workflow.task_list))",
      "            state_list = list(\n                map(\n                    lambda task: task.state,\n                    filter(lambda t: not (t.auto_task and t.default_work_amount == 0), self.workflow.task_list),\n                )\n            )", None),
